@@ -1195,7 +1195,11 @@ let int_const_text abs_threshold v =
 let negated_literal_text repaired s =
   match str_to_number s with
   | Some v ->
-    if repaired then int_const_text true (Z.opp v) else py_str (Z.opp v)
+    if (&&) repaired
+         (Z.gtb (Z.abs (Z.opp v))
+           (Z.pow (Zpos (XO XH)) (Zpos (XO (XO (XO (XO (XO (XO XH)))))))))
+    then Some (py_hex (Z.opp v))
+    else py_str (Z.opp v)
   | None -> None
 
 (** val to_base32 : z -> z list **)
